@@ -91,6 +91,13 @@ CHECKS = {
                                                                          'change-default', 'drop-notnull', 'drop-pk']] +
                        ["effective:1.x:drop-default", "effective:1.x:change-default", "effective:2.x:drop-notnull", "effective:2.x:drop-pk",
                         "effective:1.x:add-default", "effective:2.x:add-default", "effective:1.x:change-type", "effective:2.x:change-type"]),
+        # no randomness: every table / view / index / column of every schema x the mutation kinds (quick: whole-element kinds and drop / rename /
+        # retype of every column; thorough: all 20 kinds wherever they apply)
+        dict(prop="C17.enum", harness="schema_pbt", quick=dict(count="enum", workers=8), thorough=dict(count=0, workers=1),
+             essential=_ALL_SCHEMAS + ["schema=3.0.0", "file=m.db", "file=p.db", "effective-mutant", "enum"] +
+                       [f + k for f in ("1.x:", "2.x:") for k in ["drop-table", "rename-table", "drop-view", "rename-view", "drop-index", "flip-unique", "drop-column", "rename-column", "change-type"]]),
+        dict(prop="C17.enumAll", harness="schema_pbt", quick=dict(count=0, workers=1), thorough=dict(count="enum", workers=16),
+             essential=_ALL_SCHEMAS + ["schema=3.0.0", "file=m.db", "file=p.db", "effective-mutant", "equivalent-mutant", "enum"]),
         dict(prop="C17.refs", harness="schema_pbt", quick=dict(count="enum", workers=8), thorough=dict(count="enum", workers=8),
              essential=[x for x in _ALL_SCHEMAS if x != "schema=1.6.0"]),
     ]),
@@ -266,7 +273,10 @@ RULES = {
            "DDL found by a top-level comma split); the element is chosen from the library's own sqlite_master / table_info. Mutants failing "
            "integrity_check or not loadable are discarded and counted. Oracle: an independently computed structural fingerprint (tables, views, "
            "per table (column, type, notnull, default, pk) and (index, unique, origin, partial, columns)); fingerprint changed => verify() must "
-           "throw database_inconsistency; unchanged (equivalent mutant) => verify() must pass. Second part, enumerated: every reference dump, "
+           "throw database_inconsistency; unchanged (equivalent mutant) => verify() must pass. Enumerated part (no randomness): for every schema and "
+           "file, every table, view and index x {drop, rename / flip uniqueness}, one added table / view / column per table, and every column of every "
+           "table x {drop, rename, change type} (quick) resp. x all column kinds incl. add index on it, add NOT NULL / DEFAULT, swap with successor and, where "
+           "declared, drop / change DEFAULT, drop NOT NULL, drop PRIMARY KEY (thorough), same oracle. Further part, enumerated: every reference dump, "
            "hydrated by the library's own create_database_from_scripts, must pass verify() when its version is supported. Non-trivial = "
            "effective mutants; distinct = (schema, file, mutation, element).",
     "C14": "Case = schema x one of the 40 public mutating operations (create_track, update, remove_track, the 26 setters, the four crate "
